@@ -12,20 +12,47 @@ from . import extract, rx
 
 def gen_unchecked(g, rng, n_per_class, maxlen):
     names = sorted(g['sym'])
+    etype = {n: (t[0][6:] if t[0].startswith('<anon>') else t[0]) for n, t in g['elements'].items()}
     cases = []
     for elem in names:
+        xp = g['xsd_particles'].get(etype.get(elem))
+        own = rx.alphabet(xp) if xp else []
         for _ in range(n_per_class):
             ops = []
-            n = 0
+            cur = []                       # names of the children in insertion order (list semantics)
             for _i in range(rng.randrange(1, maxlen)):
                 x = rng.random()
-                if x < 0.55:
-                    ops.append(['a', rng.choice(names)])
-                    n += 1
-                elif x < 0.7:
-                    ops.append(['r', rng.randrange(n + 1)])
-                elif x < 0.85:
-                    ops.append(['p', rng.randrange(n + 1), rng.choice(names)])
+                if x < 0.45:
+                    nm = rng.choice(names)
+                    ops.append(['a', nm]); cur.append(nm)
+                elif x < 0.58:
+                    k = rng.randrange(len(cur) + 1)
+                    ops.append(['r', k])
+                    if k < len(cur):
+                        del cur[k]
+                elif x < 0.70:
+                    k = rng.randrange(len(cur) + 1)
+                    nm = rng.choice(names)
+                    ops.append(['p', k, nm])
+                    if k < len(cur):
+                        cur[k] = nm
+                elif x < 0.90 and own:
+                    # the xml_* shortcut on an unchecked element: assign an element, assign None, read
+                    nm = rng.choice(own)
+                    y = rng.random()
+                    if y < 0.5:
+                        if nm in cur:
+                            ops.append(['x', nm, 'p%d' % cur.index(nm)])
+                        else:
+                            ops.append(['x', nm, 'a']); cur.append(nm)
+                    elif y < 0.8:
+                        if nm in cur:
+                            k = cur.index(nm)
+                            ops.append(['n', nm, 'r%d' % k]); del cur[k]
+                        else:
+                            ops.append(['n', nm, 'f'])
+                    else:
+                        ops.append(['g', nm, 'f'])
                 else:
                     ops.append(['s'])
             cases.append({'elem': elem, 'ops': ops})
@@ -94,7 +121,7 @@ def run(rep):
             raise RuntimeError('c18 runner failed: ' + r.stderr[-2000:])
         out = json.loads(r.stdout)
         # (1) vs. the list machine
-        lines = ['unc ' + ' '.join({'a': 'a', 's': 'f'}.get(o[0], o[0]) + (str(o[1]) if o[0] in 'rp' else '') for o in c['ops']) for c in unc]
+        lines = ['unc ' + ' '.join(o[2] if o[0] in 'xng' else {'a': 'a', 's': 'f'}.get(o[0], o[0]) + (str(o[1]) if o[0] in 'rp' else '') for o in c['ops']) for c in unc]
         mo = m.raw(lines)
         n1 = 0
         for c, a, b in zip(unc, out['unchecked'], mo):
